@@ -37,7 +37,7 @@ from ..gen import sheets as G
 MANIFEST = dict(
     text="Proof: Lean theorems over a model of the templating step (mini template language lit/var/escVar/seq/forJoin/ifEq + expressions {{ e }}, {{ e ~ f }}, {@ e @} over references, x|default('d') and list / tuple / dict literals and dict(k=…) calls nested to any depth + native {@ path @}, contexts of nested records and lists, three Jinja `undefined` policies: the repo's strict one whose repr() fails too, plain StrictUndefined, the default): undefined_is_error (a REACHED undefined reference — also one STORED at any depth of a container literal that is printed, concatenated or returned — makes a strict rendering an error: text, native (undefined_is_error_nativeE), and at the parse_as_string/parse boundary for every context and padding; stored_undefined / holds_str_error / holds_findUndef: the stored reference survives as an Undefined object which every print and the wrapper's deep search meet), needs_deep_strict / needs_deep_check (kernel-checked witnesses that under plain StrictUndefined / a top-level-only check `[nope]` is delivered without error: the fix of F-C16-c is needed), error_has_cause + undefined_error_kind (the error names a reached undefined reference; no spurious errors), defined_exact (all reached references usable ⇒ under both policies exactly the template with each reference replaced by its value), lenient_blank / needs_strict / needs_native_check (negative witnesses: what Jinja's default did before the fix), shortcut_exact (the no-`{` shortcut never skips a reference), omitted_unevaluated (context None ⇒ stripped cell, render never called), if_false_unevaluated / for_empty_unevaluated, policy_is_strict + tables_agree (T1: a StrictUndefined whose repr() fails on BOTH environments and the DEEP native Undefined check, read from the live objects and by behaviour probes on every run). Tie: generated (template, context) pairs (every reference kind × every way of being missing; the class of F-C16-c: an undefined name at every depth of nested list/tuple/dict/dict() literals, printed / concatenated on either side / returned natively, each with a defined twin and a default-protected twin) through the real CellParser vs the driver, lenient model vs Jinja's default environments, strictShallow model vs plain StrictUndefined environments; direct oracle on containers outside the model (an undefined name as element / dict value / dict KEY / dict() argument of a container used by join, first, last, list, string, map, sort, reverse, +, ~, an index, a loop, set); end to end: every cell of generated sheets with one injected missing name (library + CLI sample), defined control ≡ literal sheet, index workbooks, excluded blocks; one template instantiated several times in one run from differently shaped contexts (two data sheets with different columns in both orders, data sheet then none, bulk then single row, argument sets, insert_as_block twice, loop variables): every instantiation must behave exactly as in a fresh run of its own — rejected when it names something only an EARLIER instantiation defined, exact own values otherwise (library + CLI sample).",
     ref="§5 C16",
-    note="Trusts: Lean kernel (axioms audited each run); Jinja2's lexer/parser/evaluator on the generated fragment (modelled, compared on every case, not verified); harness printers and Driver JSON codec; the end-to-end clauses (delivered_no_blank over whole sheets) are checked on the real compiler per explored sheet, not proved (no compiler model for templated sheets). Known findings: F-C16-b (a single row with false include_if is templated before it is dropped), F-C16-d (residue of the fixed F-C16-c: an undefined name stored in a container that is only counted / indexed elsewhere / looped over without printing the element — `[nope]|length`, `[a, nope]|first`, `{% if [nope] %}` — is never used, so nothing fails).",
+    note="Trusts: Lean kernel (axioms audited each run); Jinja2's lexer/parser/evaluator on the generated fragment (modelled, compared on every case, not verified); harness printers and Driver JSON codec; the end-to-end clauses (delivered_no_blank over whole sheets) are checked on the real compiler per explored sheet, not proved (no compiler model for templated sheets). Known findings: F-C16-b (a single row with false include_if is templated before it is dropped), F-C16-d (residue of the fixed F-C16-c: an undefined name stored in a container that is only counted / indexed elsewhere / looped over without printing the element — `[nope]|length`, `[a, nope]|first`, `{% if [nope] %}` — is never used, so nothing fails; on the modelled consumers its trigger is the Lean predicate NamesUndef ∧ ¬UsedUndef).",
     technique="Lean 4 proof (induction on templates / on the Reached derivation) + T1 configuration tables + differential run against the real CellParser + fault injection at every cell of real sheets (library and CLI)",
 )
 
@@ -211,6 +211,8 @@ def py_expr(scope, e):
     if k == "dflt":
         r = py_resolve(scope, (a["x"], []))
         return r[1] if r[0] == "val" else a["d"]
+    if k in CONSUMERS:
+        return py_consume(k, a, py_expr(scope, a["e"] if k in ("index", "join") else a))
     kind, items = a["k"], a["items"]
     vals = [(key, py_expr(scope, x)) for key, x in items]
     if kind == "list":
@@ -218,6 +220,66 @@ def py_expr(scope, e):
     if kind == "tuple":
         return tuple(v for _, v in vals)
     return dict(vals)
+
+
+CONSUMERS = ("len", "first", "last", "index", "join")
+
+
+def py_str(v):
+    """str() of a value for the oracle: an undefined marker inside (or the marker itself) cannot be printed"""
+    if has_undef(v):
+        raise Stop("undefined")
+    if isinstance(v, str):
+        return v
+    if not repr_exact(v):
+        raise Stop("off")       # a string with quotes / backslashes (a joined repr) printed inside a container: the model's repr is not exact there
+    return repr(v)
+
+
+def repr_exact(v):
+    if isinstance(v, str):
+        return v.isprintable() and not set(v) & set("'\"\\")
+    if isinstance(v, (list, tuple)):
+        return all(repr_exact(x) for x in v)
+    if isinstance(v, dict):
+        return all(repr_exact(x) for x in v.values())
+    return True
+
+
+def py_consume(k, a, v):
+    """the documented meaning of the consumer on plain Python values (the oracle's own reading: the builtin
+    filters count / select / join the elements of a sequence, a dict is its keys).  Stop('undefined'): the
+    consumer is applied to an undefined value or has to print one; Stop('off'): outside the modelled fragment
+    (empty sequence, index out of range or into a dict, a number as operand)"""
+    if v is UNDEF:
+        raise Stop("undefined")
+    if isinstance(v, int):
+        raise Stop("off")
+    seq = list(v)          # str → characters, list / tuple → elements, dict → keys
+    if k == "len":
+        return len(seq)
+    if k == "first" or k == "last":
+        if not seq:
+            raise Stop("off")
+        return seq[0 if k == "first" else -1]
+    if k == "index":
+        if isinstance(v, dict) or a["i"] >= len(seq):
+            raise Stop("off")
+        return seq[a["i"]]
+    return a["sep"].join(py_str(x) for x in seq)
+
+
+def e_names_undef(scope, e):
+    """the expression writes a reference (not under `|default`) that the context does not define"""
+    k = next(iter(e))
+    a = e[k]
+    if k == "ref":
+        return py_resolve(scope, path_of(a))[0] != "val"
+    if k == "dflt":
+        return False
+    if k in CONSUMERS:
+        return e_names_undef(scope, a["e"] if k in ("index", "join") else a)
+    return any(e_names_undef(scope, x) for _, x in a["items"])
 
 
 def has_undef(v):
@@ -237,6 +299,17 @@ def show_e(e):
         return show_path(a)
     if k == "dflt":
         return a["x"] + "|default('" + a["d"] + "')"
+    if k == "len":
+        return show_e(a) + "|length"
+    if k in ("first", "last"):
+        return show_e(a) + "|" + k
+    if k == "join":
+        return show_e(a["e"]) + "|join('" + a["sep"] + "')"
+    if k == "index":
+        inner = show_e(a["e"])
+        if next(iter(a["e"])) in ("dflt", "len", "first", "last", "join"):
+            inner = "(" + inner + ")"
+        return inner + "[" + str(a["i"]) + "]"
     kind, items = a["k"], a["items"]
     if kind == "list":
         return "[" + ", ".join(show_e(x) for _, x in items) + "]"
@@ -252,6 +325,11 @@ def show_src(s):
         return show_t(s["text"])
     if "natE" in s:
         return "{@" + s["natE"]["l"] + show_e(s["natE"]["e"]) + s["natE"]["r"] + "@}"
+    if "natC" in s:
+        return "{@" + s["natC"]["l"] + show_e(s["natC"]["e"]) + s["natC"]["r"] + "@}"
+    if "textC" in s:
+        x = s["textC"]
+        return "{{ " + show_e(x["e"]) + (" ~ " + show_e(x["cat"]) if x.get("cat") else "") + " }}"
     if "nat" in s:
         return "{@" + s["nat"]["l"] + show_path(s["nat"]["p"]) + s["nat"]["r"] + "@}"
     return "{@" + show_path(s["nat2"][0]) + "@}{@" + show_path(s["nat2"][1]) + "@}"
@@ -259,6 +337,8 @@ def show_src(s):
 
 def val_j(v):
     if isinstance(v, str):
+        return v
+    if isinstance(v, int) and not isinstance(v, bool):
         return v
     if isinstance(v, list):
         return [val_j(x) for x in v]
@@ -701,6 +781,165 @@ def gen_expr_cases(rng):
     return out
 
 
+# ------------------------------------------------------------------ consumers of containers (the model's `CExpr`)
+# `|length`, `|first`, `|last`, `[i]`, `|join('sep')` wrapped around the container levels of a skeleton (nesting 1–3,
+# consumers stacked up to two high), the hole again in three twins.  Whether the undefined hole is USED (selected and
+# printed, joined, consumed itself) or only counted / selected away is decided by the MODEL (`UsedUndef`), not here.
+
+JOIN_SEPS = ["-", ", ", "", "+", " / ", ";", "|"]
+
+
+def c_wrap(rng, e, kind, n):
+    """one consumer around a container expression of `n` items"""
+    ops = ["len", "first", "last", "join"] + ([] if kind in ("dict", "dictcall") or n == 0 else ["index", "index"])
+    op = rng.choice(ops)
+    if op == "index":
+        return {"index": {"e": e, "i": rng.randrange(n)}}
+    if op == "join":
+        return {"join": {"e": e, "sep": rng.choice(JOIN_SEPS)}}
+    return {op: e}
+
+
+def c_skeleton(rng, scope, depth, hole_path, force):
+    kind = rng.choice(E_KINDS)
+    n = rng.randint(1, 3)
+    at = rng.randrange(n)
+    keys = rng.sample(FIELDS, n) if kind in ("dict", "dictcall") else [""] * n
+    items = []
+    for i in range(n):
+        if i == at:
+            x = "HOLE" if depth <= 1 else c_skeleton(rng, scope, depth - 1, hole_path, False)
+        elif rng.random() < 0.2:
+            x = fill_hole_c(c_skeleton(rng, scope, 1, [], False), e_leaf(rng, scope))
+        else:
+            x = e_leaf(rng, scope)
+        items.append([keys[i], x])
+    e = {"coll": {"k": kind, "items": items}}
+    tag = kind
+    if force or rng.random() < 0.6:
+        e = c_wrap(rng, e, kind, n)
+        tag += "|" + next(iter(e))
+        if rng.random() < 0.3:                       # a second consumer on the result (may leave the fragment: filtered below)
+            op = rng.choice(["len", "first", "last", "index", "join"])
+            e = {"index": {"e": e, "i": rng.randrange(2)}} if op == "index" else ({"join": {"e": e, "sep": rng.choice(JOIN_SEPS)}} if op == "join" else {op: e})
+            tag += "|" + op
+    hole_path.insert(0, tag)
+    return e
+
+
+def fill_hole_c(e, leaf):
+    if e == "HOLE":
+        return leaf
+    k = next(iter(e))
+    a = e[k]
+    if k == "coll":
+        return {"coll": {"k": a["k"], "items": [[key, fill_hole_c(x, leaf)] for key, x in a["items"]]}}
+    if k in ("index", "join"):
+        return {k: {**a, "e": fill_hole_c(a["e"], leaf)}}
+    if k in ("len", "first", "last"):
+        return {k: fill_hole_c(a, leaf)}
+    return e
+
+
+def in_fragment(scope, e, printed=True):
+    try:
+        v = py_expr(scope, e)
+        if printed:
+            py_str(v)
+    except Stop as st:
+        return st.kind != "off"
+    return True
+
+
+def gen_cexpr_cases(rng):
+    """one skeleton with consumers → the undefined case, its defined twin and its default-protected twin"""
+    ctx = gen_ctx(rng)
+    ctx.setdefault("word", "w")
+    scope = list(ctx.items())
+    miss = [m for m in MISSING if m not in set(ctx)]
+    if not miss:
+        return []
+    depth = rng.choice([1, 1, 2, 2, 3])
+    hp = []
+    skel = c_skeleton(rng, scope, depth, hp, True)
+    inject = rng.choice(["misspelt_root", "misspelt_root", "misspelt_root", "misspelt_field", "missing_attr", "index_out_of_range", "step_past_undefined", "case_changed_root"])
+    bad = break_path(rng, scope, inject)
+    if bad is None:
+        inject, bad = "misspelt_root", (rng.choice(miss), [])
+    twins = [("undefined", {"ref": path_j(*restyle(rng, bad))}, inject),
+             ("defined", e_leaf(rng, scope), "none"),
+             ("default", {"dflt": {"x": rng.choice(miss), "d": rng.choice(E_DEFAULTS)}}, "none")]
+    form = rng.choice(["print", "print", "cat_right", "cat_left", "native", "native"])
+    other = e_leaf(rng, scope) if form in ("cat_right", "cat_left") else None
+    if other is not None and rng.random() < 0.4:
+        o = fill_hole_c(c_skeleton(rng, scope, 1, [], True), e_leaf(rng, scope))
+        other = o if in_fragment(scope, o) else other
+    exprs = [(t, fill_hole_c(skel, leaf), inj) for t, leaf, inj in twins]
+    if not all(in_fragment(scope, e, form != "native") for _, e, _ in exprs):
+        return []                                    # a consumer leaves the fragment for one of the twins
+    out = []
+    for twin, e, inj in exprs:
+        if form == "native":
+            pad = lambda: rng.choice(["", " ", "  ", "\n"])
+            src = {"natC": {"l": pad(), "e": e, "r": pad()}}
+        else:
+            src = {"textC": {"e": e, "cat": None} if form == "print" else ({"e": other, "cat": e} if form == "cat_right" else {"e": e, "cat": other})}
+        text = show_src(src)
+        if text != text.strip():
+            continue
+        value = rng.choice(["", "", ""] + WS) + text + rng.choice(["", "", ""] + WS)
+        labels = {"ctx": "full", "kind": "cexpr_native" if form == "native" else "cexpr_text", "inject": inj,
+                  "cexpr": {"twin": twin, "form": form, "depth": depth, "via": "/".join(hp), "top": hp[0].split("|", 1)[-1] if "|" in hp[0] else "none"}}
+        out.append({"value": value, "ctx": ctx, "ast": src, "fn": rng.choice(["pas", "parse"]), "labels": labels})
+    return out
+
+
+def _r(n):
+    return {"ref": {"root": n, "segs": []}}
+
+
+def _c(kind, *xs):
+    return {"coll": {"k": kind, "items": [[k, x] for k, x in xs]}}
+
+
+def fixed_cexpr_cases():
+    """the shapes of F-C16-d that the model covers (deterministic, every run) and their USED counterparts"""
+    ctx = {"a": "A", "row": {"name": "N"}}
+    L = lambda *xs: _c("list", *[("", x) for x in xs])
+    shapes = [
+        ("print", {"len": L(_r("nope"))}),                               # {{ [nope]|length }}
+        ("native", {"len": L(_r("nope"), _r("a"))}),                     # {@ [nope, a]|length @}
+        ("print", {"first": L(_r("a"), _r("nope"))}),                    # {{ [a, nope]|first }}
+        ("print", {"last": L(_r("nope"), _r("a"))}),                     # {{ [nope, a]|last }}
+        ("print", {"index": {"e": L(_r("a"), _r("nope")), "i": 0}}),     # {{ [a, nope][0] }}
+        ("print", {"len": _c("dict", ("k", _r("nope")))}),               # {{ {'k': nope}|length }}
+        ("print", {"first": _c("dict", ("k", _r("nope")))}),             # {{ {'k': nope}|first }}
+        ("print", {"join": {"e": _c("dictcall", ("k", _r("nope"))), "sep": "-"}}),   # {{ dict(k=nope)|join('-') }}
+        ("print", L({"len": L(_r("a"), _r("nope"))})),                   # {{ [[a, nope]|length] }}
+        ("print", {"len": {"first": L(L(_r("nope")), _r("a"))}}),        # {{ [[nope], a]|first|length }}
+        # USED: must be errors
+        ("print", {"first": L(_r("nope"), _r("a"))}),                    # {{ [nope, a]|first }}
+        ("native", {"last": L(_r("a"), _r("nope"))}),                    # {@ [a, nope]|last @}
+        ("print", {"index": {"e": L(_r("a"), _r("nope")), "i": 1}}),     # {{ [a, nope][1] }}
+        ("print", {"join": {"e": L(_r("a"), _r("nope")), "sep": "-"}}),  # {{ [a, nope]|join('-') }}
+        ("print", {"join": {"e": L(_r("a"), L(_r("nope"))), "sep": "-"}}),
+        ("print", {"first": L(L(_r("nope")), _r("a"))}),                 # {{ [[nope], a]|first }}
+        ("print", {"len": _r("nope")}),                                  # {{ nope|length }}
+        ("native", L({"first": L(_r("nope"))})),                         # {@ [[nope]|first] @}
+        ("native", {"first": L(_c("tuple", ("", _r("nope")), ("", _r("a"))))}),       # {@ [(nope, a)]|first @}: the selected tuple holds it
+        ("native", {"last": L(_r("a"), _c("dict", ("k", L(_r("nope")))))}),           # {@ [a, {'k': [nope]}]|last @}
+    ]
+    out = []
+    for form, e in shapes:
+        for twin, name in (("undefined", "nope"), ("defined", "a")):
+            ee = json.loads(json.dumps(e).replace('"nope"', json.dumps(name)))
+            src = {"natC": {"l": " ", "e": ee, "r": " "}} if form == "native" else {"textC": {"e": ee, "cat": None}}
+            labels = {"ctx": "full", "kind": "cexpr_native" if form == "native" else "cexpr_text", "inject": "misspelt_root" if twin == "undefined" else "none",
+                      "cexpr": {"twin": twin, "form": form, "depth": 0, "via": "fixed", "top": next(iter(e))}}
+            out.append({"value": show_src(src), "ctx": ctx, "ast": src, "fn": "pas", "labels": labels})
+    return out
+
+
 # ------------------------------------------------------------------ real side
 
 
@@ -817,6 +1056,15 @@ def expected(case):
     scope = list(ctx.items())
     if "nat2" in src:
         return ("nested",)
+    if "textC" in src or "natC" in src:
+        # the statement: a cell that NAMES an undefined variable is an error (whatever is then done with it);
+        # otherwise exactly the value of the expression
+        x = src.get("textC") or src["natC"]
+        es = [x["e"]] + ([x["cat"]] if x.get("cat") else [])
+        if any(e_names_undef(scope, e) for e in es):
+            return ("error_required",)
+        vs = [py_expr(scope, e) for e in es]
+        return ("value", vs[0]) if "natC" in src else ("text", "".join(py_str(v) for v in vs))
     if "natE" in src:
         try:
             v = py_expr(scope, src["natE"]["e"])
@@ -852,7 +1100,11 @@ def cell_worker(args):
     guard = 0
     while len(cases) < n and guard < n * 5:
         guard += 1
-        new = gen_expr_cases(rng) if rng.random() < (0.12 if mode != "shallow" else 0.6) else [gen_case(rng)]
+        r0 = rng.random()
+        if mode == "repo" and r0 < 0.12:
+            new = gen_cexpr_cases(rng)             # (the consumers are modelled under the repo's policy only)
+        else:
+            new = gen_expr_cases(rng) if rng.random() < (0.12 if mode != "shallow" else 0.6) else [gen_case(rng)]
         for c in new:
             if c is None:
                 continue
@@ -861,10 +1113,19 @@ def cell_worker(args):
                 continue        # NativeEnvironment literal_eval()s string results: outside the fragment
             c["exp"] = exp
             cases.append(c)
+    return check_cases(cp, cases, mode)
+
+
+FLAGS = ("names", "used", "off")
+
+
+def check_cases(cp, cases, mode):
+    """B (model = real) and C (the statement) on a list of generated cell cases"""
+    lenient = mode != "repo"
     drv = core.Driver()
     cf = MODES[mode]
     model = drv.results([{"op": "template.render", "cf": cf, "ctx": ctx_j(c["ctx"]), "value": c["value"], "ast": c["ast"], "fn": c["fn"]} for c in cases])
-    stats, ties, viol, keys = {}, [], [], []
+    stats, ties, viol, keys, known = {}, [], [], [], []
     sample = None
 
     def bump(k, v=1):
@@ -873,11 +1134,27 @@ def cell_worker(args):
     for c, m in zip(cases, model):
         if "__error__" in m:
             raise core.Infra(f"driver refused a generated case: {m} :: {c['value']!r}")
-        real, facts = run_real(cp, c)
-        mm = {k: v for k, v in m.items() if k != "path"}
+        mm = {k: v for k, v in m.items() if k != "path" and k not in FLAGS}
         exp = c["exp"]
         lab = c["labels"]
         tag = "" if mode == "repo" else mode + "."
+        if "cexpr" in lab:
+            if m.get("off"):
+                raise core.Infra(f"generator self-check: a consumer case left the model's fragment: {c['value']!r}")
+            if "natC" in c["ast"] and isinstance(mm.get("value"), str) and literal_like(mm["value"]):
+                bump("cexpr.skipped_native_literal_like")
+                continue        # NativeEnvironment literal_eval()s string results ('1' → 1): outside the fragment
+            if m.get("names") != (exp[0] == "error_required"):
+                raise core.Infra(f"generator self-check: Lean `NamesUndef` and the oracle's reading differ: {c['value']!r} {m}")
+            x = lab["cexpr"]
+            for kx in ("twin", "form", "top"):
+                bump(f"cexpr.{kx}.{x[kx]}")
+            bump(f"cexpr.depth.{x['depth']}")
+            verdict = "error" if "error" in mm else ("SILENT(names∧¬used)" if m["names"] else "delivered")
+            bump(f"cexpr.{x['twin']}.{verdict}")
+            if m["names"] and ("error" in mm) != bool(m["used"]):
+                raise core.Infra(f"model self-check: UsedUndef and the model's verdict differ: {c['value']!r} {m}")
+        real, facts = run_real(cp, c)
         bump(f"{tag}cases")
         if "expr" in lab:
             x = lab["expr"]
@@ -911,7 +1188,12 @@ def cell_worker(args):
             if reported or delivered != want:
                 viol.append({"what": "context None (omitted templating): the cell was not returned stripped and unevaluated", **rep, "expected": want})
         elif exp[0] == "error_required":
-            if not reported:
+            if not reported and "cexpr" in lab and m.get("names") and not m.get("used") and not m.get("off") and real == mm:
+                # F-C16-d, attributed by the LEAN predicate: trigger = NamesUndef ∧ ¬UsedUndef (every undefined object is
+                # counted / dropped / selected away), pattern = what is delivered is exactly what the model delivers
+                known.append({"value": c["value"], "context": c["ctx"], "fn": c["fn"], "delivered": safe_repr(delivered)[:120], "lean": {k: m[k] for k in FLAGS}})
+                bump("known_F-C16-d_generated")
+            elif not reported:
                 viol.append({"what": "a reached reference is undefined in the context but no CRITICAL record / exception was produced; delivered: " + safe_repr(delivered)[:120], **rep})
             elif delivered is not None and facts["exc"] is None:
                 viol.append({"what": "undefined reference reported, but a text/value was delivered all the same: " + safe_repr(delivered)[:120], **rep})
@@ -932,7 +1214,7 @@ def cell_worker(args):
         elif exp[0] == "type_error":
             if not reported:
                 viol.append({"what": "|escape on a non-string delivered something silently", **rep})
-    return {"stats": stats, "ties": ties[:10], "nties": len(ties), "viol": viol[:10], "nviol": len(viol), "keys": keys, "sample": sample}
+    return {"stats": stats, "ties": ties[:10], "nties": len(ties), "viol": viol[:10], "nviol": len(viol), "keys": keys, "sample": sample, "known": known[:3], "nknown": len(known)}
 
 
 # ------------------------------------------------------------------ end to end: every cell of a sheet
@@ -1264,20 +1546,17 @@ def known_findings_stream(ck):
         _, ok_plain, _ = run_cell(cp, "{{ nope }}", ctx)
         _, ok_nested, _ = run_cell(cp, "{{ [nope] }}", ctx)
         if ok_plain and ok_nested:
-            ck.known("F-C16-d", "an undefined name stored in a container literal (or by {% set %}) whose undefined object is then dropped or only counted "
-                     "— `[nope]|length`, `[a, nope]|first`, `[a, nope][0]`, `{% if [nope] %}`, `{% for x in [nope] %}` without using x — is delivered without any error",
+            ck.known("F-C16-d", "an undefined name stored in a container literal whose undefined object is then only tested, looped over without using the element "
+                     "or assigned — `{% if [nope] %}`, `{% for x in [nope] %}` without using x, `{% set x = [nope] %}` (statements: outside the Lean model) — is delivered without any error",
                      seen[0])
             ck.count("known_F-C16-d_forms", len(seen))
     ck.count("F-C16-d_forms_now_reported", fixed_forms)
 
 
 # (cell with the undefined name, the same cell over a defined name, what the defined twin must deliver)
+# (only the shapes OUTSIDE the model: statements.  `|length`, `|first`, `|last`, `[i]`, `|join` over containers are
+# generated and attributed through the Lean predicate `NamesUndef ∧ ¬UsedUndef` — see `gen_cexpr_cases`)
 F_C16_D_FORMS = [
-    ("{{ [nope]|length }}", "{{ [a]|length }}", "1"),
-    ("{@ [nope, a]|length @}", "{@ [a, a]|length @}", 2),
-    ("{{ [a, nope]|first }}", "{{ [a, a]|first }}", "A"),
-    ("{{ [a, nope][0] }}", "{{ [a, a][0] }}", "A"),
-    ("{{ {'k': nope}|length }}", "{{ {'k': a}|length }}", "1"),
     ("{% if [nope] %}y{% endif %}", "{% if [a] %}y{% endif %}", "y"),
     ("{% for x in [nope] %}y{% endfor %}", "{% for x in [a] %}y{% endfor %}", "y"),
     ("{% set x = [nope] %}ok", "{% set x = [a] %}ok", "ok"),
@@ -1793,6 +2072,9 @@ def fold_cell(ck, results):
             ck.count("tie_break", r["nties"] - len(r["ties"]))
         for v in r["viol"]:
             ck.violation(v["what"], v)
+        if r.get("known"):
+            ck.known("F-C16-d", "an expression names an undefined variable but every `Undefined` object is only counted, dropped or selected away "
+                     "(Lean: NamesUndef ∧ ¬UsedUndef; delivered = what the model delivers): no error", r["known"][0])
         if r.get("sample") and len(ck.samples) < 3:
             ck.samples.append(r["sample"])
 
@@ -1809,7 +2091,9 @@ def run(ck: core.Check):
         "syntax (literals incl. separators/braces/unicode, {{p}}, {{p|escape}}, {% for %}, {% if == %}, {@ p @}, two natives), half of "
         "them — plus, 12 %: container expressions (list/tuple/dict/dict() literals nested 1–4 deep, the hole an element or a dict value at the innermost level, "
         "printed / concatenated left or right / returned natively) in three twins: hole = an undefined reference (7 ways of being missing), a defined one, "
-        "a `|default`-protected missing name; 28 hand-written container shapes outside the model (filters, loops, +, ~, index, dict key) × random names × the same three twins — half of "
+        "a `|default`-protected missing name; 12 %: the same skeletons (nesting 1–3) with CONSUMERS wrapped around their container levels — |length, |first, |last, [i], |join('sep'), "
+        "stacked up to two high, also on the other operand of `~` — in the same three twins, plus 20 fixed shapes (the F-C16-d forms and their USED counterparts): whether the undefined hole is used "
+        "(error required AND found) or only counted / selected away (F-C16-d) is the Lean predicate `UsedUndef`; 28 hand-written container shapes outside the model (filters, loops, +, ~, index, dict key) × random names × the same three twins — half of "
         "them with ONE reference broken in one of 10 ways (misspelt root/field, missing attribute, field of a sibling record, index out of "
         "range, attribute of a string/list, step past an undefined, integer index on a record, case changed, loop variable outside its "
         "loop) placed at top level / inside a loop body / inside a true if / inside a false if / inside a loop over nothing, random "
@@ -1821,11 +2105,12 @@ def run(ck: core.Check):
     ck.assumptions = [
         "Jinja2 parses the printed fragment as the structure it was printed from (the driver re-prints the structure and compares it with the stripped cell; evaluation is compared on every case)",
         "NativeEnvironment literal_eval()s string results ('12' → 12): string values that are Python literals are kept out of native cases",
-        "repr() of strings inside containers: generators use quote/backslash-free strings there",
+        "repr() of strings inside containers: generators use quote/backslash-free strings there (consumer cases whose joined text with quotes would be re-printed inside a container are discarded by the generator's own oracle)",
     ]
     ck.partial_gap = [
         "delivered_no_blank over whole sheets (no instantiated cell of a delivered row contains an undefined reference) is checked on the real compiler for every cell of the explored sheets, not proved: there is no Lean model of the templated row/sheet parser; the cell-level theorems are proved for all templates and contexts of the fragment",
-        "Jinja expressions outside the fragment (filters other than escape / default, arithmetic, tests, set, comprehensions; a container that is consumed by a filter or a loop; dict literals with a repeated key) are not modelled — containers used by filters / loops / + / index are checked by the direct oracle only (container stream); a stored undefined object that is never used is F-C16-d",
+        "Jinja expressions outside the fragment (filters other than escape / default, arithmetic, tests, set, comprehensions; dict literals with a repeated key; consumers that make an undefined object of their own: first/last of an empty sequence, an index out of range or into a dict) are not modelled — containers used by other filters / loops / + are checked by the direct oracle only (container stream). |length, |first, |last, [i], |join over containers ARE modelled (`CExpr`): F-C16-d's trigger on them is the Lean predicate NamesUndef ∧ ¬UsedUndef; `{% if e %}` / `{% for %}` / `{% set %}` over a container stay with the hand-written known-finding stream (the `Tmpl` type has no statement over an expression)",
+        "`UsedUndef` is defined on the value the expression evaluates to (evaluation failed on an undefined object, or the value handed to the printer / the caller still holds one); render_error_iff_used ties BOTH uses (print walk, native search) to it; structural laws for every consumer applied directly to a literal are proved (used_len/coll/first_cons/last_coll/index_coll/join_coll/…_dict, consumer_used_mono); the exact law for a consumer applied to another consumer's result (`selecting_composes_full`) — i.e. a closed syntactic recursion — is not proved",
     ]
 
     # ---- B + C at the cell level
@@ -1837,8 +2122,15 @@ def run(ck: core.Check):
     jobs += [(ck.rng.randrange(1 << 60), n_len // par.NPROC, "shallow") for _ in range(par.NPROC)]
     fold_cell(ck, par.pmap(cell_worker, jobs))
 
-    # kernel-checked witnesses of Props/C16.lean replayed on the real code
+    # the shapes of F-C16-d inside the model (and their USED counterparts), every run: same tie, same oracle,
+    # attribution by the Lean predicate only
     from rpft.parsers.common.cellparser import CellParser
+    fx = fixed_cexpr_cases()
+    for c in fx:
+        c["exp"] = expected(c)
+    fold_cell(ck, [check_cases(CellParser(), fx, "repo")])
+
+    # kernel-checked witnesses of Props/C16.lean replayed on the real code
     cp, lp, sp = CellParser(), lenient_parser(), shallow_parser()
     wit = [
         ("needs_deep_strict (plain StrictUndefined prints the stored object)", sp, "{{ [nope] }}", {"a": "A"}, "[Undefined]"),
